@@ -1,4 +1,1018 @@
 import PeliteModel.Spec.Rich
 /-! Helper lemmas for C16 (property theorems live in Thm/C16.lean). -/
 namespace Pelite.Rich
+open Spec
+
+/-! ### record codec -/
+
+theorem xor_cancel (a k : Nat) : (a ^^^ k) ^^^ k = a := by
+  rw [Nat.xor_assoc, Nat.xor_self, Nat.xor_zero]
+
+theorem xor_right_inj {a b k : Nat} (h : a ^^^ k = b ^^^ k) : a = b := by
+  have := congrArg (· ^^^ k) h
+  simpa [xor_cancel] using this
+
+theorem and_ffff (x : Nat) : x &&& 0xffff = x % 65536 := by
+  have := Nat.and_two_pow_sub_one_eq_mod x 16
+  simpa using this
+
+theorem shr16 (x : Nat) : x >>> 16 = x / 65536 := by
+  rw [Nat.shiftRight_eq_div_pow]
+
+theorem value_eq (r : Record) (hb : r.build < 65536) : r.value = compId r := by
+  unfold Record.value compId
+  rw [← Nat.shiftLeft_add_eq_or_of_lt (i := 16) (by simpa using hb), Nat.shiftLeft_eq]
+
+theorem value_lt (r : Record) (h : r.WF) : r.value < 4294967296 := by
+  rw [value_eq r h.1]; unfold compId; have := h.1; have := h.2.1; omega
+
+theorem decode_eq_spec (k w0 w1 : Nat) (hk : k < 4294967296) (h0 : w0 < 4294967296) :
+    Record.decode k w0 w1 = decRecord k w0 w1 := by
+  have hx : w0 ^^^ k < 2 ^ 32 := Nat.xor_lt_two_pow (by simpa using h0) (by simpa using hk)
+  unfold Record.decode decRecord
+  simp only [and_ffff, shr16]
+  congr 1
+  omega
+
+theorem decode_wf (k w0 w1 : Nat) (hk : k < 4294967296) (h1 : w1 < 4294967296) :
+    (Record.decode k w0 w1).WF := by
+  have hx : w1 ^^^ k < 2 ^ 32 := Nat.xor_lt_two_pow (by simpa using h1) (by simpa using hk)
+  unfold Record.decode Record.WF
+  simp only [and_ffff, shr16]
+  refine ⟨by omega, by omega, by simpa using hx⟩
+
+theorem encode_eq_spec (k : Nat) (r : Record) (hb : r.build < 65536) :
+    [(r.encode k).1, (r.encode k).2] = encRecord k r := by
+  unfold Record.encode encRecord; rw [value_eq r hb]
+
+theorem decode_encode (k : Nat) (r : Record) (h : r.WF) :
+    Record.decode k (r.encode k).1 (r.encode k).2 = r := by
+  obtain ⟨hb, hp, hc⟩ := h
+  unfold Record.encode Record.decode
+  simp only [xor_cancel, and_ffff, shr16, value_eq r hb]
+  unfold compId
+  cases r with
+  | mk b p c =>
+    simp only at hb hp hc ⊢
+    congr 1 <;> omega
+
+theorem encode_decode (k w0 w1 : Nat) (hk : k < 4294967296) (h0 : w0 < 4294967296) :
+    (Record.decode k w0 w1).encode k = (w0, w1) := by
+  have hx : w0 ^^^ k < 2 ^ 32 := Nat.xor_lt_two_pow (by simpa using h0) (by simpa using hk)
+  have hwf : (Record.decode k w0 w1).build < 65536 := by
+    unfold Record.decode; simp only [and_ffff]; omega
+  unfold Record.encode
+  rw [value_eq _ hwf]
+  unfold Record.decode compId
+  simp only [and_ffff, shr16]
+  have : (w0 ^^^ k) / 65536 % 65536 * 65536 + (w0 ^^^ k) % 65536 = w0 ^^^ k := by omega
+  rw [this, xor_cancel, xor_cancel]
+
+
+/-! ### checksum: the code's dword loop = the documented byte sum -/
+theorem rotl32_eq_spec (x n : Nat) (hx : x < 4294967296) : rotl32 x n = rol32 x n := by
+  unfold rotl32 rol32
+  generalize hr : n % 32 = r
+  have hr32 : r < 32 := by omega
+  have hpow : 2 ^ (32 - r) * 2 ^ r = 4294967296 := by
+    rw [← Nat.pow_add, Nat.sub_add_cancel (by omega)]
+  have h1 : (x <<< r) % 4294967296 = (x % 2 ^ (32 - r)) <<< r := by
+    rw [Nat.shiftLeft_eq, Nat.shiftLeft_eq, ← hpow, Nat.mul_mod_mul_right]
+  have h2 : x >>> (32 - r) < 2 ^ r := by
+    rw [Nat.shiftRight_eq_div_pow]
+    apply Nat.div_lt_of_lt_mul
+    rw [hpow]; exact hx
+  rw [h1, ← Nat.shiftLeft_add_eq_or_of_lt h2, Nat.shiftLeft_eq, Nat.shiftRight_eq_div_pow]
+
+theorem rol32_zero (n : Nat) : rol32 0 n = 0 := by
+  unfold rol32; simp
+
+theorem stubBytes_cons (w : Nat) (ws : List Nat) :
+    stubBytes (w :: ws) = w % 256 :: (w / 256 % 256) :: (w / 65536 % 256) :: (w / 16777216 % 256) :: stubBytes ws := by
+  simp [stubBytes]
+
+theorem csumStub_eq : ∀ (ws : List Nat) (i c : Nat), i % 4 = 0 → i + 4 * ws.length < 4294967296 →
+    c < 4294967296 →
+    csumStub ws i c = .ok ((c + sumBytes (stubBytes ws) i) % 4294967296) := by
+  intro ws
+  induction ws with
+  | nil => intro i c _ _ hc; simp [csumStub, stubBytes, sumBytes]; omega
+  | cons w ws ih =>
+    intro i c hi hlen hc
+    have hl : i + 4 + 4 * ws.length < 4294967296 := by simp at hlen; omega
+    have b0 : w % 256 < 4294967296 := by omega
+    have b1 : w / 256 % 256 < 4294967296 := by omega
+    have b2 : w / 65536 % 256 < 4294967296 := by omega
+    have b3 : w / 16777216 % 256 < 4294967296 := by omega
+    rw [csumStub, stubBytes_cons]
+    simp only [sumBytes, byte0, byte1, byte2, byte3, wadd32]
+    rw [if_neg (by omega), if_neg (by omega)]
+    rw [ih (i + 4) _ (by omega) hl (Nat.mod_lt _ (by decide))]
+    by_cases h60 : i = 60
+    · subst h60
+      simp [rotl32_eq_spec, rol32_zero]
+    · rw [if_neg h60, if_neg h60, if_neg h60, if_neg h60]
+      rw [if_neg (by omega), if_neg (by omega), if_neg (by omega), if_neg (by omega)]
+      rw [rotl32_eq_spec _ _ b0, rotl32_eq_spec _ _ b1, rotl32_eq_spec _ _ b2, rotl32_eq_spec _ _ b3]
+      simp only [Nat.add_zero, Nat.add_assoc, Nat.reduceAdd]
+      congr 1
+      omega
+
+theorem csumRecs_eq : ∀ (rs : List Record) (c : Nat), (∀ r ∈ rs, r.WF) → c < 4294967296 →
+    csumRecs rs c = (c + sumRecs rs) % 4294967296 := by
+  intro rs
+  induction rs with
+  | nil => intro c _ hc; simp [csumRecs, sumRecs]; omega
+  | cons r rs ih =>
+    intro c hwf hc
+    have hr : r.WF := hwf r (by simp)
+    rw [csumRecs, ih _ (fun x hx => hwf x (by simp [hx])) (by unfold wadd32; omega)]
+    rw [rotl32_eq_spec _ _ (value_lt r hr), value_eq r hr.1]
+    simp only [sumRecs, wadd32]
+    omega
+
+theorem checksumOf_eq (stub : List Nat) (rs : List Record) (hlen : 4 * stub.length < 4294967296)
+    (hwf : ∀ r ∈ rs, r.WF) : checksumOf stub rs = .ok (Spec.checksum stub rs) := by
+  unfold checksumOf
+  rw [csumStub_eq stub 0 _ (by omega) (by omega) (by omega)]
+  simp only [Out.bind_ok]
+  rw [csumRecs_eq rs _ hwf (by omega)]
+  unfold Spec.checksum
+  congr 1
+  omega
+
+/-! ### the two scans of `try_from` -/
+
+/-- `DanS^x, x, x, x` at dword `s` -/
+def Hdr (img : List Nat) (x dx s : Nat) : Prop :=
+  img[s]? = some dx ∧ img[s + 1]? = some x ∧ img[s + 2]? = some x ∧ img[s + 3]? = some x
+
+instance (img : List Nat) (x dx s : Nat) : Decidable (Hdr img x dx s) := by unfold Hdr; infer_instance
+
+theorem hdrAt_spec (img : List Nat) (x dx s : Nat) (h : s + 3 < img.length) :
+    hdrAt img x dx s = .ok (decide (Hdr img x dx s)) := by
+  have h0 : img[s]? = some (img[s]'(by omega)) := List.getElem?_eq_getElem _
+  have h1 : img[s + 1]? = some (img[s + 1]'(by omega)) := List.getElem?_eq_getElem _
+  have h2 : img[s + 2]? = some (img[s + 2]'(by omega)) := List.getElem?_eq_getElem _
+  have h3 : img[s + 3]? = some (img[s + 3]'(by omega)) := List.getElem?_eq_getElem _
+  unfold hdrAt Hdr
+  simp only [h0, h1, h2, h3, Option.some.injEq]
+  by_cases a : img[s] = dx <;> by_cases b : img[s + 1] = x <;> by_cases c : img[s + 2] = x <;>
+    by_cases d : img[s + 3] = x <;> simp [a, b, c, d]
+
+theorem skipPad_spec (img : List Nat) (e : Nat) (he : e ≤ img.length) :
+    (∃ e', skipPad img e = .ok e' ∧ 16 ≤ e' ∧ e' ≤ e ∧ (∃ v, img[e' - 1]? = some v ∧ v ≠ 0) ∧
+        ∀ j, e' ≤ j → j < e → img[j]? = some 0)
+    ∨ (skipPad img e = .err .invalid ∧ ∀ j, 15 ≤ j → j < e → img[j]? = some 0) := by
+  fun_induction skipPad img e with
+  | case1 e h => right; exact ⟨rfl, fun j h1 h2 => by omega⟩
+  | case2 e h hn =>
+    exfalso
+    have : e - 1 < img.length := by omega
+    rw [List.getElem?_eq_getElem this] at hn; cases hn
+  | case3 e h v hv hne =>
+    left; exact ⟨e, rfl, by omega, Nat.le_refl _, ⟨v, hv, hne⟩, fun j h1 h2 => by omega⟩
+  | case4 e h v hv hz ih =>
+    have hv0 : v = 0 := by simpa using hz
+    subst hv0
+    rcases ih (by omega) with ⟨e', h1, h2, h3, h4, h5⟩ | ⟨h1, h2⟩
+    · left
+      refine ⟨e', h1, h2, by omega, h4, fun j hj1 hj2 => ?_⟩
+      by_cases hj : j = e - 1
+      · subst hj; exact hv
+      · exact h5 j hj1 (by omega)
+    · right
+      refine ⟨h1, fun j hj1 hj2 => ?_⟩
+      by_cases hj : j = e - 1
+      · subst hj; exact hv
+      · exact h2 j hj1 (by omega)
+
+theorem findStart_spec (img : List Nat) (x dx s : Nat) (hs : s + 3 < img.length) :
+    (∃ s', findStart img x dx s = .ok s' ∧ 16 ≤ s' ∧ s' ≤ s ∧ (s - s') % 2 = 0 ∧ Hdr img x dx s' ∧
+        ∀ t, s' < t → t ≤ s → (s - t) % 2 = 0 → ¬ Hdr img x dx t)
+    ∨ (findStart img x dx s = .err .invalid ∧
+        ∀ t, 16 ≤ t → t ≤ s → (s - t) % 2 = 0 → ¬ Hdr img x dx t) := by
+  fun_induction findStart img x dx s with
+  | case1 s h => right; exact ⟨rfl, fun t h1 h2 => by omega⟩
+  | case2 s h hh =>
+    rw [hdrAt_spec img x dx s hs] at hh
+    have hd : Hdr img x dx s := by simpa using hh
+    left; exact ⟨s, rfl, by omega, Nat.le_refl _, by omega, hd, fun t h1 h2 => by omega⟩
+  | case3 s h hh ih =>
+    rw [hdrAt_spec img x dx s hs] at hh
+    have hd : ¬ Hdr img x dx s := by simpa using hh
+    rcases ih (by omega) with ⟨s', h1, h2, h3, h4, h5, h6⟩ | ⟨h1, h2⟩
+    · left
+      refine ⟨s', h1, h2, by omega, by omega, h5, fun t ht1 ht2 ht3 => ?_⟩
+      by_cases ht : t = s
+      · subst ht; exact hd
+      · exact h6 t ht1 (by omega) (by omega)
+    · right
+      refine ⟨h1, fun t ht1 ht2 ht3 => ?_⟩
+      by_cases ht : t = s
+      · subst ht; exact hd
+      · exact h2 t ht1 (by omega) (by omega)
+  | case4 s h e hh => rw [hdrAt_spec img x dx s hs] at hh; cases hh
+  | case5 s h e hh => rw [hdrAt_spec img x dx s hs] at hh; cases hh
+  | case6 s h e hh => rw [hdrAt_spec img x dx s hs] at hh; cases hh
+  | case7 s h hh => rw [hdrAt_spec img x dx s hs] at hh; cases hh
+
+
+theorem dans_eq : Spec.dans = DANS := by decide
+theorem rich_eq : Spec.rich = RICH := by decide
+
+/-- the DOS area `try_from` looks at: the dwords before `e_lfanew` -/
+def areaOf (image : List Nat) : List Nat := image.take (image.getD 15 0 / 4)
+
+theorem idx_of_getElem? {site : String} {ws : List Nat} {i v : Nat} (h : ws[i]? = some v) :
+    idx site ws i = .ok v := by
+  unfold idx; rw [h]
+
+theorem slice_ok (site : String) (ws : List Nat) (a b : Nat) (h : a ≤ b ∧ b ≤ ws.length) :
+    slice site ws a b = .ok ((ws.take b).drop a) := by
+  unfold slice; rw [if_pos h]
+
+/-- no block that reads `DanS^k, k, k, k` strictly between the header and the trailer, at even distance -/
+def NoFake (area : List Nat) (s e k : Nat) : Prop :=
+  ∀ t, s < t → t + 6 ≤ e → (e - t) % 2 = 0 → ¬ Hdr area k (DANS ^^^ k) t
+
+theorem parseArea_complete (area : List Nat) (s e k : Nat)
+    (hwf : WellFormedAt area s e k) (hk : k ≠ 0) (hno : NoFake area s e k) :
+    parseArea area = .ok ⟨area.take s, (area.take e).drop s⟩ := by
+  obtain ⟨w1, w2, w3, w4, w5, w6, w7, w8, w9, w10, w11⟩ := hwf
+  rw [dans_eq] at w5; rw [rich_eq] at w9
+  unfold parseArea
+  -- first loop
+  have hE : skipPad area area.length = .ok e := by
+    rcases skipPad_spec area area.length (Nat.le_refl _) with ⟨e', h1, h2, h3, ⟨v, h4, h4'⟩, h5⟩ | ⟨_, h2⟩
+    · have : e' = e := by
+        rcases Nat.lt_trichotomy e' e with hlt | heq | hgt
+        · have := h5 (e - 1) (by omega) (by omega)
+          rw [w10] at this; cases this; exact absurd rfl hk
+        · exact heq
+        · have := w11 (e' - 1) (by omega) (by omega)
+          rw [h4] at this; cases this; exact absurd rfl h4'
+      rw [h1, this]
+    · have := h2 (e - 1) (by omega) (by omega)
+      rw [w10] at this; cases this; exact absurd rfl hk
+  rw [hE]; simp only [Out.bind_ok]
+  rw [idx_of_getElem? w9]; simp only [Out.bind_ok]
+  rw [if_neg (by simp)]
+  rw [idx_of_getElem? w10]; simp only [Out.bind_ok]
+  have hp : psub "rich_structure.rs:62 end - 6" e 6 = .ok (e - 6) := by unfold psub; rw [if_pos (by omega)]
+  rw [hp]; simp only [Out.bind_ok]
+  have hd : Hdr area k (DANS ^^^ k) s := ⟨w5, w6, w7, w8⟩
+  have hS : findStart area k (DANS ^^^ k) (e - 6) = .ok s := by
+    rcases findStart_spec area k (DANS ^^^ k) (e - 6) (by omega) with ⟨s', h1, h2, h3, h4, h5, h6⟩ | ⟨_, h2⟩
+    · have : s' = s := by
+        rcases Nat.lt_trichotomy s' s with hlt | heq | hgt
+        · exact absurd hd (h6 s hlt (by omega) (by omega))
+        · exact heq
+        · exact absurd h5 (hno s' hgt (by omega) (by omega))
+      rw [h1, this]
+    · exact absurd hd (h2 s w1 (by omega) (by omega))
+  rw [hS]; simp only [Out.bind_ok]
+  rw [slice_ok _ _ _ _ ⟨by omega, by omega⟩]; simp only [Out.bind_ok]
+  rw [slice_ok _ _ _ _ ⟨by omega, by omega⟩]; simp only [Out.bind_ok]
+  simp
+
+/-- what `parseArea` can answer at all, and what an `ok` means -/
+theorem parseArea_spec (area : List Nat) :
+    (∃ s e k, parseArea area = .ok ⟨area.take s, (area.take e).drop s⟩ ∧
+        WellFormedAt area s e k ∧ k ≠ 0 ∧ NoFake area s e k)
+    ∨ parseArea area = .err .invalid ∨ parseArea area = .err .badMagic := by
+  unfold parseArea
+  rcases skipPad_spec area area.length (Nat.le_refl _) with ⟨e, h1, h2, h3, ⟨k, h4, h4'⟩, h5⟩ | ⟨h1, _⟩
+  · rw [h1]; simp only [Out.bind_ok]
+    have hm : area[e - 2]? = some (area[e - 2]'(by omega)) := List.getElem?_eq_getElem _
+    rw [idx_of_getElem? hm]; simp only [Out.bind_ok]
+    by_cases hr : area[e - 2]'(by omega) = RICH
+    · rw [if_neg (by simp [hr])]
+      rw [idx_of_getElem? h4]; simp only [Out.bind_ok]
+      have hp : psub "rich_structure.rs:62 end - 6" e 6 = .ok (e - 6) := by unfold psub; rw [if_pos (by omega)]
+      rw [hp]; simp only [Out.bind_ok]
+      rcases findStart_spec area k (DANS ^^^ k) (e - 6) (by omega) with ⟨s, g1, g2, g3, g4, g5, g6⟩ | ⟨g1, _⟩
+      · left
+        rw [g1]; simp only [Out.bind_ok]
+        rw [slice_ok _ _ _ _ ⟨by omega, by omega⟩]; simp only [Out.bind_ok]
+        rw [slice_ok _ _ _ _ ⟨by omega, by omega⟩]; simp only [Out.bind_ok]
+        refine ⟨s, e, k, by simp, ?_, h4', ?_⟩
+        · obtain ⟨a, b, c, d⟩ := g5
+          rw [hr] at hm
+          refine ⟨g2, by omega, h3, by omega, by rw [dans_eq]; exact a, b, c, d, by rw [rich_eq]; exact hm, h4, ?_⟩
+          intro j hj1 hj2; exact h5 j hj2 hj1
+        · intro t ht1 ht2 ht3; exact g6 t ht1 (by omega) (by omega)
+      · right; left; rw [g1]; rfl
+    · right; right; rw [if_pos (by simp [hr])]
+  · right; left; rw [h1]; rfl
+
+
+/-! ### the documented layout: index facts, well-formedness, accessors -/
+
+/-- header, records, footer as the model's `encode` writes them -/
+def hdrWords (k : Nat) (rs : List Record) : List Nat := [DANS ^^^ k, k, k, k] ++ (encodeAll k rs ++ [RICH, k])
+
+theorem encodeAll_length (k : Nat) (rs : List Record) : (encodeAll k rs).length = 2 * rs.length := by
+  induction rs with
+  | nil => rfl
+  | cons r rs ih => simp [encodeAll, ih] <;> omega
+
+theorem hdrWords_length (k : Nat) (rs : List Record) : (hdrWords k rs).length = 2 * rs.length + 6 := by
+  simp [hdrWords, encodeAll_length] <;> omega
+
+theorem flatMap_encRecord (k : Nat) (rs : List Record) (hwf : ∀ r ∈ rs, r.WF) :
+    rs.flatMap (encRecord k) = encodeAll k rs := by
+  induction rs with
+  | nil => rfl
+  | cons r rs ih =>
+    have hr : r.WF := hwf r (by simp)
+    rw [List.flatMap_cons, ih (fun x hx => hwf x (by simp [hx])), ← encode_eq_spec k r hr.1]
+    rfl
+
+theorem header_eq (k : Nat) (rs : List Record) (hwf : ∀ r ∈ rs, r.WF) : Spec.header k rs = hdrWords k rs := by
+  unfold Spec.header hdrWords
+  rw [flatMap_encRecord k rs hwf, dans_eq, rich_eq, List.append_assoc]
+
+theorem decodeAll_encodeAll (k : Nat) (rs : List Record) (hwf : ∀ r ∈ rs, r.WF) :
+    decodeAll k (encodeAll k rs) = rs := by
+  induction rs with
+  | nil => rfl
+  | cons r rs ih =>
+    simp only [encodeAll, decodeAll]
+    rw [decode_encode k r (hwf r (by simp)), ih (fun x hx => hwf x (by simp [hx]))]
+
+theorem encodeAll_drop (k : Nat) : ∀ (i : Nat) (rs : List Record),
+    (encodeAll k rs).drop (2 * i) = encodeAll k (rs.drop i) := by
+  intro i
+  induction i with
+  | zero => intro rs; rfl
+  | succ i ih =>
+    intro rs
+    cases rs with
+    | nil => simp [encodeAll]
+    | cons r rs =>
+      have : 2 * (i + 1) = 2 * i + 1 + 1 := by omega
+      rw [this]
+      simp only [encodeAll, List.drop_succ_cons]
+      exact ih rs
+
+theorem imitates_drop : ∀ (i : Nat) (rs : List Record), imitates (rs.drop i) = true → imitates rs = true := by
+  intro i
+  induction i with
+  | zero => intro rs h; exact h
+  | succ i ih =>
+    intro rs h
+    cases rs with
+    | nil => exact h
+    | cons a t =>
+      have h' := ih t (by simpa using h)
+      cases t with
+      | nil => simp [imitates] at h'
+      | cons b t' => simp only [imitates, Bool.or_eq_true]; exact Or.inr h'
+
+
+theorem get_app (A T : List Nat) (i : Nat) : (A ++ T)[A.length + i]? = T[i]? := by
+  rw [List.getElem?_append_right (Nat.le_add_right _ _), Nat.add_sub_cancel_left]
+
+theorem get_app' (A T : List Nat) (n i : Nat) (h : A.length = n) : (A ++ T)[n + i]? = T[i]? := by
+  subst h; exact get_app A T i
+
+/-- the documented layout, in the model's vocabulary -/
+def layoutWords (stub : List Nat) (k : Nat) (rs : List Record) (p : Nat) : List Nat :=
+  stub ++ (hdrWords k rs ++ List.replicate p 0)
+
+theorem layout_eq (stub : List Nat) (k : Nat) (rs : List Record) (p : Nat) (hwf : ∀ r ∈ rs, r.WF) :
+    Spec.layout stub k rs p = layoutWords stub k rs p := by
+  unfold Spec.layout layoutWords; rw [header_eq k rs hwf, List.append_assoc]
+
+theorem layoutWords_length (stub : List Nat) (k : Nat) (rs : List Record) (p : Nat) :
+    (layoutWords stub k rs p).length = stub.length + (2 * rs.length + 6) + p := by
+  simp [layoutWords, hdrWords_length]; omega
+
+/-- dword `stub.length + i` of the layout, by region -/
+theorem layout_hdr (stub : List Nat) (k : Nat) (rs : List Record) (p : Nat) :
+    (layoutWords stub k rs p)[stub.length]? = some (DANS ^^^ k) ∧
+    (layoutWords stub k rs p)[stub.length + 1]? = some k ∧
+    (layoutWords stub k rs p)[stub.length + 2]? = some k ∧
+    (layoutWords stub k rs p)[stub.length + 3]? = some k := by
+  unfold layoutWords hdrWords
+  refine ⟨?_, ?_, ?_, ?_⟩
+  · have := get_app stub ([DANS ^^^ k, k, k, k] ++ (encodeAll k rs ++ [RICH, k]) ++ List.replicate p 0) 0
+    rw [Nat.add_zero] at this; rw [this]; simp
+  · rw [get_app]; simp
+  · rw [get_app]; simp
+  · rw [get_app]; simp
+
+theorem layout_body (stub : List Nat) (k : Nat) (rs : List Record) (p i : Nat) (hi : i < 2 * rs.length) :
+    (layoutWords stub k rs p)[stub.length + (4 + i)]? = (encodeAll k rs)[i]? := by
+  unfold layoutWords hdrWords
+  rw [get_app, List.append_assoc, get_app' _ _ 4 i rfl, List.append_assoc,
+    List.getElem?_append_left (by rw [encodeAll_length]; exact hi)]
+
+theorem layout_trailer (stub : List Nat) (k : Nat) (rs : List Record) (p : Nat) :
+    (layoutWords stub k rs p)[stub.length + (4 + 2 * rs.length)]? = some RICH ∧
+    (layoutWords stub k rs p)[stub.length + (4 + 2 * rs.length) + 1]? = some k := by
+  unfold layoutWords hdrWords
+  refine ⟨?_, ?_⟩
+  · rw [get_app, List.append_assoc, get_app' _ _ 4 _ rfl, List.append_assoc]
+    have := get_app' (encodeAll k rs) ([RICH, k] ++ List.replicate p 0) (2 * rs.length) 0 (encodeAll_length k rs)
+    simpa using this
+  · rw [Nat.add_assoc, get_app, List.append_assoc, Nat.add_assoc, get_app' _ _ 4 _ rfl, List.append_assoc]
+    have := get_app' (encodeAll k rs) ([RICH, k] ++ List.replicate p 0) (2 * rs.length) 1 (encodeAll_length k rs)
+    simpa using this
+
+theorem layout_pad (stub : List Nat) (k : Nat) (rs : List Record) (p j : Nat)
+    (h1 : stub.length + (2 * rs.length + 6) ≤ j) (h2 : j < (layoutWords stub k rs p).length) :
+    (layoutWords stub k rs p)[j]? = some 0 := by
+  rw [layoutWords_length] at h2
+  obtain ⟨i, rfl⟩ : ∃ i, j = stub.length + ((2 * rs.length + 6) + i) := ⟨j - (stub.length + (2 * rs.length + 6)), by omega⟩
+  unfold layoutWords
+  rw [get_app, get_app' _ _ _ _ (hdrWords_length k rs), List.getElem?_replicate, if_pos (by omega)]
+
+
+theorem layout_wellFormed (stub : List Nat) (k : Nat) (rs : List Record) (p : Nat) (h16 : 16 ≤ stub.length) :
+    WellFormedAt (layoutWords stub k rs p) stub.length (stub.length + (2 * rs.length + 6)) k := by
+  obtain ⟨a, b, c, d⟩ := layout_hdr stub k rs p
+  obtain ⟨e, f⟩ := layout_trailer stub k rs p
+  refine ⟨h16, by omega, by rw [layoutWords_length]; omega, by omega, by rw [dans_eq]; exact a, b, c, d, ?_, ?_, ?_⟩
+  · rw [rich_eq, ← e]; congr 1; omega
+  · rw [← f]; congr 1; omega
+  · intro j hj1 hj2; exact layout_pad stub k rs p j hj2 hj1
+
+theorem xor_eq_self_iff {a k : Nat} (h : a ^^^ k = k) : a = 0 := by
+  have : a ^^^ k = 0 ^^^ k := by rw [h, Nat.zero_xor]
+  exact xor_right_inj this
+
+theorem record_eq_of_value (r : Record) (hwf : r.WF) (p b : Nat) (hb : b < 65536)
+    (hv : r.value = p * 65536 + b) (hc : r.count = 0) : r = ⟨b, p, 0⟩ := by
+  rw [value_eq r hwf.1] at hv
+  unfold compId at hv
+  obtain ⟨h1, h2, _⟩ := hwf
+  cases r with
+  | mk rb rp rc =>
+    simp only at hv hc h1 h2
+    subst hc
+    congr 1 <;> omega
+
+theorem layout_noFake (stub : List Nat) (k : Nat) (rs : List Record) (p : Nat)
+    (hwf : ∀ r ∈ rs, r.WF) (him : imitates rs = false) :
+    NoFake (layoutWords stub k rs p) stub.length (stub.length + (2 * rs.length + 6)) k := by
+  intro t ht1 ht2 ht3 ⟨g0, g1, g2, g3⟩
+  by_cases h2 : t = stub.length + 2
+  · -- the block would start at the second key dword
+    subst h2
+    rw [(layout_hdr stub k rs p).2.2.1] at g0
+    have : k = DANS ^^^ k := by simpa using g0
+    have hz := xor_eq_self_iff this.symm
+    revert hz; decide
+  · -- the block lies inside the records
+    obtain ⟨i, rfl⟩ : ∃ i, t = stub.length + (4 + 2 * i) := ⟨(t - stub.length - 4) / 2, by omega⟩
+    have hi : i + 2 ≤ rs.length := by omega
+    have e0 : (layoutWords stub k rs p)[stub.length + (4 + 2 * i)]? = (encodeAll k rs)[2 * i]? :=
+      layout_body stub k rs p (2 * i) (by omega)
+    have e1 : (layoutWords stub k rs p)[stub.length + (4 + 2 * i) + 1]? = (encodeAll k rs)[2 * i + 1]? := by
+      have := layout_body stub k rs p (2 * i + 1) (by omega)
+      rw [← this]; congr 1
+    have e2 : (layoutWords stub k rs p)[stub.length + (4 + 2 * i) + 2]? = (encodeAll k rs)[2 * i + 2]? := by
+      have := layout_body stub k rs p (2 * i + 2) (by omega)
+      rw [← this]; congr 1
+    have e3 : (layoutWords stub k rs p)[stub.length + (4 + 2 * i) + 3]? = (encodeAll k rs)[2 * i + 3]? := by
+      have := layout_body stub k rs p (2 * i + 3) (by omega)
+      rw [← this]; congr 1
+    rw [e0] at g0; rw [e1] at g1; rw [e2] at g2; rw [e3] at g3
+    -- the two records at `i`, `i + 1`
+    have hd : ∀ j, (encodeAll k rs)[2 * i + j]? = (encodeAll k (rs.drop i))[j]? := by
+      intro j; rw [← encodeAll_drop, List.getElem?_drop]
+    obtain ⟨a, b, rest, hab⟩ : ∃ a b rest, rs.drop i = a :: b :: rest := by
+      have hl : (rs.drop i).length ≥ 2 := by rw [List.length_drop]; omega
+      match hm : rs.drop i, hl with
+      | a :: b :: rest, _ => exact ⟨a, b, rest, rfl⟩
+    have ha : a ∈ rs := List.mem_of_mem_drop (by rw [hab]; simp)
+    have hb : b ∈ rs := List.mem_of_mem_drop (by rw [hab]; simp)
+    have g0' := hd 0; have g1' := hd 1; have g2' := hd 2; have g3' := hd 3
+    rw [hab] at g0' g1' g2' g3'
+    simp only [encodeAll, Nat.add_zero] at g0' g1' g2' g3'
+    rw [g0'] at g0; rw [g1'] at g1; rw [g2'] at g2; rw [g3'] at g3
+    simp only [Record.encode, List.getElem?_cons_zero, List.getElem?_cons_succ, Option.some.injEq] at g0 g1 g2 g3
+    have a1 : a.value = DANS := xor_right_inj g0
+    have a2 : a.count = 0 := xor_eq_self_iff g1
+    have b1 : b.value = 0 := xor_eq_self_iff g2
+    have b2 : b.count = 0 := xor_eq_self_iff g3
+    have ea : a = ⟨0x6144, 0x536e, 0⟩ := record_eq_of_value a (hwf a ha) 0x536e 0x6144 (by decide) (by rw [a1]; decide) a2
+    have eb : b = ⟨0, 0, 0⟩ := record_eq_of_value b (hwf b hb) 0 0 (by decide) (by rw [b1]) b2
+    have : imitates (rs.drop i) = true := by
+      rw [hab, ea, eb]; simp [imitates]
+    have := imitates_drop i rs this
+    rw [him] at this; cases this
+
+
+theorem layout_take_stub (stub : List Nat) (k : Nat) (rs : List Record) (p : Nat) :
+    (layoutWords stub k rs p).take stub.length = stub := by
+  unfold layoutWords; exact List.take_left' rfl
+
+theorem layout_take_drop (stub : List Nat) (k : Nat) (rs : List Record) (p : Nat) :
+    ((layoutWords stub k rs p).take (stub.length + (2 * rs.length + 6))).drop stub.length = hdrWords k rs := by
+  unfold layoutWords
+  rw [List.take_length_add_append, List.drop_left', List.take_left' (hdrWords_length k rs)]
+  rfl
+
+/-! ### accessors on a parsed header -/
+
+theorem xorKey_hdr (stub : List Nat) (k : Nat) (rs : List Record) :
+    (RichS.mk stub (hdrWords k rs)).xorKey = .ok k := by
+  unfold RichS.xorKey idx hdrWords; simp
+
+theorem records_hdr (stub : List Nat) (k : Nat) (rs : List Record) :
+    (RichS.mk stub (hdrWords k rs)).records = .ok ⟨encodeAll k rs, k⟩ := by
+  unfold RichS.records
+  have hl : (hdrWords k rs).length = 2 * rs.length + 6 := hdrWords_length k rs
+  have hp : psub "rich_structure.rs:118 self.image.len() - 2" (hdrWords k rs).length 2 = .ok (2 * rs.length + 4) := by
+    unfold psub; rw [if_pos (by omega), hl]; congr 1
+  simp only [hp, Out.bind_ok]
+  rw [slice_ok _ _ _ _ ⟨by omega, by omega⟩, xorKey_hdr]
+  simp only [Out.bind_ok]
+  congr 2
+  unfold hdrWords
+  have h4 : ([DANS ^^^ k, k, k, k] : List Nat).length = 4 := rfl
+  have : 2 * rs.length + 4 = ([DANS ^^^ k, k, k, k] : List Nat).length + (encodeAll k rs).length := by
+    rw [encodeAll_length]; simp; omega
+  rw [this, List.take_length_add_append, List.take_left' rfl]
+  rfl
+
+theorem collect_hdr (k : Nat) (rs : List Record) (hwf : ∀ r ∈ rs, r.WF) :
+    (Iter.mk (encodeAll k rs) k).collect = rs := by
+  unfold Iter.collect; exact decodeAll_encodeAll k rs hwf
+
+theorem checksum_hdr (stub : List Nat) (k : Nat) (rs : List Record) (hlen : 4 * stub.length < 4294967296)
+    (hwf : ∀ r ∈ rs, r.WF) : (RichS.mk stub (hdrWords k rs)).checksum = .ok (Spec.checksum stub rs) := by
+  unfold RichS.checksum
+  rw [records_hdr]; simp only [Out.bind_ok]
+  rw [collect_hdr k rs hwf, checksumOf_eq stub rs hlen hwf]
+
+/-- `encode` in closed form -/
+theorem encode_eq (r : RichS) (rs : List Record) (destLen : Nat) (hlen : 4 * r.dosStub.length < 4294967296)
+    (hwf : ∀ x ∈ rs, x.WF) (hn : rs.length < 536870900) :
+    r.encode rs destLen = .ok (
+      let k := Spec.checksum r.dosStub rs
+      let total := ((k / 32) % 3 + rs.length) * 2 + 8
+      if destLen < rs.length * 2 + 6 then .tooSmall total
+      else .done total (hdrWords k rs ++ List.replicate (destLen - (rs.length * 2 + 6)) 0)) := by
+  unfold RichS.encode
+  rw [checksumOf_eq _ rs hlen hwf]; simp only [Out.bind_ok]
+  generalize Spec.checksum r.dosStub rs = k
+  have h1 : rs.length % 4294967296 = rs.length := Nat.mod_eq_of_lt (by omega)
+  rw [h1]
+  unfold padd32 pmul32
+  rw [if_pos (by omega)]; simp only [Out.bind_ok]
+  rw [if_pos (by omega)]; simp only [Out.bind_ok]
+  rw [if_pos (by omega)]; simp only [Out.bind_ok]
+  have h2 : ((k / 32 % 3 + rs.length) * 8 + 32) / 4 = (k / 32 % 3 + rs.length) * 2 + 8 := by omega
+  rw [h2]
+  by_cases hd : destLen < rs.length * 2 + 6
+  · simp [hd]
+  · simp [hd, hdrWords]
+
+
+theorem tryFrom_layout (stub : List Nat) (k : Nat) (rs : List Record) (p : Nat) (rest : List Nat)
+    (h16 : 16 ≤ stub.length)
+    (he : stub.getD 15 0 / 4 = stub.length + (2 * rs.length + 6) + p)
+    (hk : k ≠ 0) (hwf : ∀ r ∈ rs, r.WF) (him : imitates rs = false) :
+    tryFrom (layoutWords stub k rs p ++ rest) = .ok ⟨stub, hdrWords k rs⟩ := by
+  have hL := layoutWords_length stub k rs p
+  have h15 : (layoutWords stub k rs p ++ rest)[15]? = some (stub.getD 15 0) := by
+    rw [List.getElem?_append_left (by omega)]
+    unfold layoutWords
+    rw [List.getElem?_append_left (by omega), List.getD_eq_getElem?_getD, List.getElem?_eq_getElem (by omega)]
+    simp
+  unfold tryFrom
+  rw [h15]
+  simp only
+  rw [if_neg (by rw [he, List.length_append]; omega), he, ← hL, List.take_left' rfl]
+  rw [parseArea_complete _ _ _ k (layout_wellFormed stub k rs p h16) hk (layout_noFake stub k rs p hwf him)]
+  rw [layout_take_stub, layout_take_drop]
+
+
+/-! ### RichIter against a deque of the records -/
+
+theorem decodeAll_length (k : Nat) : ∀ l : List Nat, (decodeAll k l).length = l.length / 2
+  | [] => rfl
+  | [_] => by simp [decodeAll]
+  | _ :: _ :: t => by
+    simp only [decodeAll, List.length_cons, decodeAll_length k t]; omega
+
+theorem decodeAll_append_even (k : Nat) : ∀ (front l : List Nat), front.length % 2 = 0 →
+    decodeAll k (front ++ l) = decodeAll k front ++ decodeAll k l
+  | [], _, _ => rfl
+  | [_], _, h => by simp at h
+  | a :: b :: t, l, h => by
+    have h' : t.length % 2 = 0 := by simp only [List.length_cons] at h; omega
+    simp only [List.cons_append, decodeAll, decodeAll_append_even k t l h']
+
+theorem decodeAll_drop (k : Nat) : ∀ (i : Nat) (l : List Nat),
+    (decodeAll k l).drop i = decodeAll k (l.drop (2 * i)) := by
+  intro i
+  induction i with
+  | zero => intro l; rfl
+  | succ i ih =>
+    intro l
+    have h2 : 2 * (i + 1) = 2 * i + 1 + 1 := by omega
+    match l with
+    | [] => simp [decodeAll]
+    | [a] => rw [h2]; simp [decodeAll]
+    | a :: b :: t =>
+      rw [h2]
+      simp only [decodeAll, List.drop_succ_cons]
+      exact ih t
+
+theorem decodeAll_get (k : Nat) (l : List Nat) (i a b : Nat) (ha : l[2 * i]? = some a) (hb : l[2 * i + 1]? = some b) :
+    (decodeAll k l)[i]? = some (Record.decode k a b) := by
+  have h := decodeAll_drop k i l
+  have h0 : (decodeAll k l)[i]? = ((decodeAll k l).drop i)[0]? := by rw [List.getElem?_drop]; rfl
+  rw [h0, h]
+  have ha' : (l.drop (2 * i))[0]? = some a := by rw [List.getElem?_drop]; exact ha
+  have hb' : (l.drop (2 * i))[1]? = some b := by rw [List.getElem?_drop]; exact hb
+  match hm : l.drop (2 * i), ha', hb' with
+  | x :: y :: t, ha', hb' =>
+    simp at ha' hb'
+    subst ha' hb'
+    simp [decodeAll]
+
+
+/-- invariant of an iterator handed out by `records()`: whole records only, a real slice length -/
+def Iter.Inv (it : Iter) : Prop := it.iter.length % 2 = 0 ∧ it.iter.length < USZ
+
+theorem next_refines (it : Iter) (h : it.Inv) :
+    ∃ it', it.next = .ok (it.collect.head?, it') ∧ it'.collect = it.collect.tail ∧ it'.Inv := by
+  have h1 := h.1
+  have h2 := h.2
+  match hm : it.iter with
+  | [] =>
+    refine ⟨it, ?_, ?_, h⟩
+    · unfold Iter.next Iter.collect; rw [hm]; simp [decodeAll]
+    · unfold Iter.collect; rw [hm]; simp [decodeAll]
+  | [a] => rw [hm] at h1; simp at h1
+  | a :: b :: t =>
+    refine ⟨⟨t, it.key⟩, ?_, ?_, ?_⟩
+    · unfold Iter.next Iter.collect; rw [hm]
+      rw [if_pos (by simp)]
+      have i0 : idx "rich_structure.rs:254 self.iter[0]" (a :: b :: t) 0 = .ok a := by unfold idx; simp
+      have i1 : idx "rich_structure.rs:254 self.iter[1]" (a :: b :: t) 1 = .ok b := by unfold idx; simp
+      rw [i0, i1, slice_ok _ _ _ _ ⟨by simp, Nat.le_refl _⟩]
+      simp [decodeAll]
+    · unfold Iter.collect; rw [hm]; simp [decodeAll]
+    · rw [hm] at h1 h2
+      simp only [List.length_cons] at h1 h2
+      exact ⟨by show t.length % 2 = 0; omega, by show t.length < USZ; omega⟩
+
+theorem split_last2 (l : List Nat) (h : 2 ≤ l.length) :
+    ∃ front a b, l = front ++ [a, b] ∧ front.length = l.length - 2 := by
+  have h1 : l = l.take (l.length - 2) ++ l.drop (l.length - 2) := (List.take_append_drop _ _).symm
+  have h2 : (l.drop (l.length - 2)).length = 2 := by rw [List.length_drop]; omega
+  match hm : l.drop (l.length - 2), h2 with
+  | [a, b], _ =>
+    refine ⟨l.take (l.length - 2), a, b, ?_, ?_⟩
+    · rw [hm] at h1; exact h1
+    · rw [List.length_take]; omega
+
+theorem nextBack_refines (it : Iter) (h : it.Inv) :
+    ∃ it', it.nextBack = .ok (it.collect.getLast?, it') ∧ it'.collect = it.collect.dropLast ∧ it'.Inv := by
+  by_cases hl : 2 ≤ it.iter.length
+  · obtain ⟨front, a, b, hf, hfl⟩ := split_last2 it.iter hl
+    have hfe : front.length % 2 = 0 := by have := h.1; omega
+    have hc : it.collect = decodeAll it.key front ++ [Record.decode it.key a b] := by
+      unfold Iter.collect; rw [hf, decodeAll_append_even _ _ _ hfe]; simp [decodeAll]
+    refine ⟨⟨front, it.key⟩, ?_, ?_, ?_⟩
+    · unfold Iter.nextBack
+      simp only
+      rw [if_pos hl]
+      have i0 : it.iter[it.iter.length - 2]? = some a := by
+        rw [← hfl]; have := get_app front [a, b] 0; rw [Nat.add_zero] at this; rw [hf, this]; rfl
+      have i1 : it.iter[it.iter.length - 1]? = some b := by
+        have e : it.iter.length - 1 = front.length + 1 := by omega
+        rw [e, hf, get_app]; rfl
+      rw [idx_of_getElem? i0, idx_of_getElem? i1, slice_ok _ _ _ _ ⟨by omega, by omega⟩]
+      simp only [Out.bind_ok, List.drop_zero]
+      rw [hc, ← hfl]
+      congr 2
+      · simp
+      · congr 1; rw [hf]; exact List.take_left' rfl
+    · rw [hc]; simp [Iter.collect]
+    · exact ⟨hfe, by have := h.2; show front.length < USZ; omega⟩
+  · have he : it.iter = [] := by
+      have := h.1
+      match hm : it.iter with
+      | [] => rfl
+      | [a] => rw [hm] at this; simp at this
+      | a :: b :: t => rw [hm] at hl; simp at hl
+    refine ⟨it, ?_, ?_, h⟩
+    · unfold Iter.nextBack; simp only; rw [if_neg hl]; unfold Iter.collect; rw [he]; simp [decodeAll]
+    · unfold Iter.collect; rw [he]; simp [decodeAll]
+
+theorem nth_refines (it : Iter) (h : it.Inv) (n : Nat) :
+    ∃ it', it.nth n = .ok (it.collect[n]?, it') ∧ it'.collect = it.collect.drop (n + 1) ∧ it'.Inv := by
+  unfold Iter.nth
+  by_cases hn : it.iter.length / 2 > n
+  · rw [if_pos hn]
+    have hlt := h.2
+    unfold USZ at hlt
+    have ha : it.iter[n * 2]? = some (it.iter[n * 2]'(by omega)) := List.getElem?_eq_getElem _
+    have hb : it.iter[n * 2 + 1]? = some (it.iter[n * 2 + 1]'(by omega)) := List.getElem?_eq_getElem _
+    unfold pmul64 padd64 USZ
+    rw [if_pos (by omega)]; simp only [Out.bind_ok]
+    rw [if_pos (by omega)]; simp only [Out.bind_ok]
+    rw [if_pos (by omega)]; simp only [Out.bind_ok]
+    rw [idx_of_getElem? ha, idx_of_getElem? hb, slice_ok _ _ _ _ ⟨by omega, Nat.le_refl _⟩]
+    simp only [Out.bind_ok, List.take_length]
+    refine ⟨⟨it.iter.drop (n * 2 + 2), it.key⟩, ?_, ?_, ?_⟩
+    · congr 2
+      unfold Iter.collect
+      rw [decodeAll_get it.key it.iter n _ _ (by rw [Nat.mul_comm]; exact ha) (by rw [Nat.mul_comm]; exact hb)]
+    · unfold Iter.collect
+      simp only
+      rw [decodeAll_drop]; congr 2; omega
+    · refine ⟨?_, ?_⟩
+      · simp only [List.length_drop]; have := h.1; omega
+      · simp only [List.length_drop]; unfold USZ; omega
+  · rw [if_neg hn, slice_ok _ _ _ _ ⟨Nat.le_refl _, Nat.zero_le _⟩]
+    simp only [Out.bind_ok]
+    have hlen : it.collect.length ≤ n := by unfold Iter.collect; rw [decodeAll_length]; omega
+    refine ⟨⟨[], it.key⟩, ?_, ?_, ?_⟩
+    · congr 2; rw [List.getElem?_eq_none hlen]
+    · rw [List.drop_eq_nil_of_le (by omega)]; rfl
+    · simp [Iter.Inv, USZ]
+
+theorem step_refines (it : Iter) (h : it.Inv) (op : Op) :
+    ∃ it', it.step op = .ok ((stepDeque it.collect op).1, it') ∧
+      it'.collect = (stepDeque it.collect op).2 ∧ it'.Inv := by
+  have hlen : it.collect.length = it.iter.length / 2 := by unfold Iter.collect; exact decodeAll_length _ _
+  cases op with
+  | next =>
+    obtain ⟨it', h1, h2, h3⟩ := next_refines it h
+    exact ⟨it', by simp [Iter.step, h1, stepDeque], by simp [stepDeque, h2], h3⟩
+  | nextBack =>
+    obtain ⟨it', h1, h2, h3⟩ := nextBack_refines it h
+    exact ⟨it', by simp [Iter.step, h1, stepDeque], by simp [stepDeque, h2], h3⟩
+  | nth n =>
+    obtain ⟨it', h1, h2, h3⟩ := nth_refines it h n
+    exact ⟨it', by simp [Iter.step, h1, stepDeque], by simp [stepDeque, h2], h3⟩
+  | len => exact ⟨it, by simp [Iter.step, stepDeque, Iter.len, Iter.sizeHint, hlen], rfl, h⟩
+  | sizeHint => exact ⟨it, by simp [Iter.step, stepDeque, Iter.sizeHint, hlen], rfl, h⟩
+  | count => exact ⟨it, by simp [Iter.step, stepDeque, Iter.count, Iter.sizeHint, hlen], rfl, h⟩
+  | clone => exact ⟨it, by simp [Iter.step, stepDeque], rfl, h⟩
+
+theorem run_refines : ∀ (ops : List Op) (it : Iter), it.Inv → it.run ops = .ok (runDeque it.collect ops) := by
+  intro ops
+  induction ops with
+  | nil => intro it _; rfl
+  | cons o os ih =>
+    intro it h
+    obtain ⟨it', h1, h2, h3⟩ := step_refines it h o
+    simp only [Iter.run, runDeque, h1, Out.bind_ok, ih it' h3, h2]
+
+
+/-! no call on an iterator over any slice panics (also for a slice with a dangling odd dword) -/
+
+theorem idx_ok (site : String) (ws : List Nat) (i : Nat) (h : i < ws.length) : idx site ws i = .ok ws[i] :=
+  idx_of_getElem? (List.getElem?_eq_getElem h)
+
+theorem next_total (it : Iter) : ∃ p, it.next = .ok p := by
+  unfold Iter.next
+  by_cases h : it.iter.length ≥ 2
+  · rw [if_pos h, idx_ok _ _ _ (by omega), idx_ok _ _ _ (by omega), slice_ok _ _ _ _ ⟨h, Nat.le_refl _⟩]
+    exact ⟨_, rfl⟩
+  · rw [if_neg h]; exact ⟨_, rfl⟩
+
+theorem nextBack_total (it : Iter) : ∃ p, it.nextBack = .ok p := by
+  unfold Iter.nextBack
+  simp only
+  by_cases h : it.iter.length ≥ 2
+  · rw [if_pos h, idx_ok _ _ _ (by omega), idx_ok _ _ _ (by omega), slice_ok _ _ _ _ ⟨by omega, by omega⟩]
+    exact ⟨_, rfl⟩
+  · rw [if_neg h]; exact ⟨_, rfl⟩
+
+theorem nth_total (it : Iter) (hlen : it.iter.length < USZ) (n : Nat) : ∃ p, it.nth n = .ok p := by
+  unfold Iter.nth
+  unfold USZ at hlen
+  by_cases hn : it.iter.length / 2 > n
+  · rw [if_pos hn]
+    unfold pmul64 padd64 USZ
+    rw [if_pos (by omega)]; simp only [Out.bind_ok]
+    rw [if_pos (by omega)]; simp only [Out.bind_ok]
+    rw [if_pos (by omega)]; simp only [Out.bind_ok]
+    rw [idx_ok _ _ _ (by omega), idx_ok _ _ _ (by omega), slice_ok _ _ _ _ ⟨by omega, Nat.le_refl _⟩]
+    exact ⟨_, rfl⟩
+  · rw [if_neg hn, slice_ok _ _ _ _ ⟨Nat.le_refl _, Nat.zero_le _⟩]; exact ⟨_, rfl⟩
+
+theorem step_total (it : Iter) (hlen : it.iter.length < USZ) (op : Op) : ∃ p, it.step op = .ok p := by
+  cases op with
+  | next => obtain ⟨p, h⟩ := next_total it; exact ⟨_, by simp [Iter.step, h]; rfl⟩
+  | nextBack => obtain ⟨p, h⟩ := nextBack_total it; exact ⟨_, by simp [Iter.step, h]; rfl⟩
+  | nth n => obtain ⟨p, h⟩ := nth_total it hlen n; exact ⟨_, by simp [Iter.step, h]; rfl⟩
+  | len => exact ⟨_, rfl⟩
+  | sizeHint => exact ⟨_, rfl⟩
+  | count => exact ⟨_, rfl⟩
+  | clone => exact ⟨_, rfl⟩
+
+/-- `next` run to exhaustion is `collect` (ties `decodeAll` to the state machine) -/
+theorem collect_next_some (it it' : Iter) (r : Record) (h : it.next = .ok (some r, it')) :
+    it.collect = r :: it'.collect := by
+  unfold Iter.next at h
+  unfold Iter.collect
+  match hm : it.iter with
+  | [] => rw [hm] at h; simp at h
+  | [a] => rw [hm] at h; simp at h
+  | a :: b :: t =>
+    rw [hm] at h
+    simp [idx, slice] at h
+    obtain ⟨h1, h2⟩ := h
+    subst h1 h2
+    simp [decodeAll]
+
+theorem collect_next_none (it it' : Iter) (h : it.next = .ok (none, it')) : it.collect = [] ∧ it' = it := by
+  unfold Iter.next at h
+  by_cases hl : it.iter.length ≥ 2
+  · rw [if_pos hl, idx_ok _ _ _ (by omega), idx_ok _ _ _ (by omega), slice_ok _ _ _ _ ⟨hl, Nat.le_refl _⟩] at h
+    simp at h
+  · rw [if_neg hl] at h
+    simp only [Out.ok.injEq, Prod.mk.injEq, true_and] at h
+    refine ⟨?_, h.symm⟩
+    unfold Iter.collect
+    match hm : it.iter, hl with
+    | [], _ => rfl
+    | [a], _ => rfl
+    | a :: b :: t, hl => simp at hl
+
+
+/-! ### `try_from` as a whole: totality, soundness, the parsed area is the documented layout -/
+
+theorem tryFrom_eq (image : List Nat) :
+    tryFrom image = if 16 ≤ image.length ∧ image.getD 15 0 / 4 ≤ image.length then parseArea (areaOf image)
+      else .err .invalid := by
+  unfold tryFrom areaOf
+  by_cases h16 : 16 ≤ image.length
+  · have h15 : image[15]? = some (image.getD 15 0) := by
+      rw [List.getD_eq_getElem?_getD, List.getElem?_eq_getElem (by omega)]; simp
+    rw [h15]
+    simp only
+    by_cases hn : image.getD 15 0 / 4 ≤ image.length
+    · rw [if_neg (by omega), if_pos ⟨h16, hn⟩]
+    · rw [if_pos (by omega), if_neg (by omega)]
+  · have h15 : image[15]? = none := List.getElem?_eq_none (by omega)
+    rw [h15, if_neg (by omega)]
+
+/-- `try_from` never panics, never reads out of bounds, terminates: it answers a structure, `Invalid` or `BadMagic` -/
+theorem tryFrom_total (image : List Nat) :
+    (∃ r, tryFrom image = .ok r) ∨ tryFrom image = .err .invalid ∨ tryFrom image = .err .badMagic := by
+  rw [tryFrom_eq]
+  split
+  · rcases parseArea_spec (areaOf image) with ⟨s, e, k, h, _⟩ | h | h
+    · exact Or.inl ⟨_, h⟩
+    · exact Or.inr (Or.inl h)
+    · exact Or.inr (Or.inr h)
+  · exact Or.inr (Or.inl rfl)
+
+theorem tryFrom_sound (image : List Nat) (r : RichS) (h : tryFrom image = .ok r) :
+    16 ≤ image.length ∧ image.getD 15 0 / 4 ≤ image.length ∧
+    ∃ s e k, r = ⟨(areaOf image).take s, ((areaOf image).take e).drop s⟩ ∧
+      WellFormedAt (areaOf image) s e k ∧ k ≠ 0 ∧ NoFake (areaOf image) s e k := by
+  rw [tryFrom_eq] at h
+  split at h
+  · rename_i hc
+    refine ⟨hc.1, hc.2, ?_⟩
+    rcases parseArea_spec (areaOf image) with ⟨s, e, k, h1, h2, h3, h4⟩ | h1 | h1
+    · rw [h1] at h; cases h; exact ⟨s, e, k, rfl, h2, h3, h4⟩
+    · rw [h1] at h; cases h
+    · rw [h1] at h; cases h
+  · cases h
+
+/-- shape of a parsed structure: where its two slices lie and what the header dwords are -/
+theorem parsed_shape (area : List Nat) (s e k : Nat) (hwf : WellFormedAt area s e k) :
+    (area.take s).length = s ∧ ((area.take e).drop s).length = e - s ∧
+    ∀ i, s + i < e → ((area.take e).drop s)[i]? = area[s + i]? := by
+  obtain ⟨w1, w2, w3, _⟩ := hwf
+  refine ⟨by rw [List.length_take]; omega, by rw [List.length_drop, List.length_take]; omega, ?_⟩
+  intro i hi
+  rw [List.getElem?_drop, List.getElem?_take, if_pos hi]
+
+
+theorem list_shape (M : List Nat) (a b c d x y : Nat) (h6 : 6 ≤ M.length)
+    (h0 : M[0]? = some a) (h1 : M[1]? = some b) (h2 : M[2]? = some c) (h3 : M[3]? = some d)
+    (hx : M[M.length - 2]? = some x) (hy : M[M.length - 1]? = some y) :
+    M = [a, b, c, d] ++ ((M.take (M.length - 2)).drop 4 ++ [x, y]) := by
+  match M, h6 with
+  | m0 :: m1 :: m2 :: m3 :: rest, h6 =>
+    simp only [List.length_cons] at h6 hx hy
+    have hr : 2 ≤ rest.length := by omega
+    obtain ⟨front, p, q, hf, hfl⟩ := split_last2 rest hr
+    simp at h0 h1 h2 h3
+    subst h0 h1 h2 h3
+    have e1 : rest.length + 1 + 1 + 1 + 1 - 2 = (front.length + 3) + 1 := by omega
+    have e2 : rest.length + 1 + 1 + 1 + 1 - 1 = (front.length + 1 + 3) + 1 := by omega
+    rw [e1] at hx; rw [e2] at hy
+    simp only [List.getElem?_cons_succ] at hx hy
+    have gx : rest[front.length]? = some p := by rw [hf]; have := get_app front [p, q] 0; rw [Nat.add_zero] at this; rw [this]; rfl
+    have gy : rest[front.length + 1]? = some q := by rw [hf, get_app]; rfl
+    have hx' := hx
+    have hy' := hy
+    rw [gx] at hx'; rw [gy] at hy'
+    cases hx'; cases hy'
+    have e3 : (m0 :: m1 :: m2 :: m3 :: rest).length - 2 = 4 + front.length := by simp only [List.length_cons]; omega
+    rw [e3]
+    have : List.take (4 + front.length) (m0 :: m1 :: m2 :: m3 :: rest) = m0 :: m1 :: m2 :: m3 :: front := by
+      have : 4 + front.length = front.length + 1 + 1 + 1 + 1 := by omega
+      rw [this]; simp only [List.take_succ_cons]
+      rw [hf, List.take_left' rfl]
+    rw [this, hf]
+    rfl
+
+
+theorem encodeAll_decodeAll (k : Nat) (hk : k < 4294967296) : ∀ l : List Nat, l.length % 2 = 0 →
+    (∀ w ∈ l, w < 4294967296) → encodeAll k (decodeAll k l) = l
+  | [], _, _ => rfl
+  | [_], h, _ => by simp at h
+  | a :: b :: t, h, hb => by
+    have h' : t.length % 2 = 0 := by simp only [List.length_cons] at h; omega
+    simp only [decodeAll, encodeAll]
+    rw [encode_decode k a b hk (hb a (by simp)), encodeAll_decodeAll k hk t h' (fun w hw => hb w (by simp [hw]))]
+
+theorem decodeAll_wf (k : Nat) (hk : k < 4294967296) : ∀ l : List Nat,
+    (∀ w ∈ l, w < 4294967296) → ∀ r ∈ decodeAll k l, r.WF
+  | [], _, r, hr => by simp [decodeAll] at hr
+  | [_], _, r, hr => by simp [decodeAll] at hr
+  | a :: b :: t, hb, r, hr => by
+    simp only [decodeAll, List.mem_cons] at hr
+    rcases hr with hr | hr
+    · rw [hr]; exact decode_wf k a b hk (hb b (by simp))
+    · exact decodeAll_wf k hk t (fun w hw => hb w (by simp [hw])) r hr
+
+/-- a well-formed area *is* the documented layout of its stub, its key and its decoded records -/
+theorem parsed_layout (area : List Nat) (s e k : Nat) (hwf : WellFormedAt area s e k)
+    (hb : ∀ w ∈ area, w < 4294967296) :
+    ∃ rs : List Record, (∀ r ∈ rs, r.WF) ∧ e = s + (2 * rs.length + 6) ∧
+      (area.take e).drop s = hdrWords k rs ∧
+      area = layoutWords (area.take s) k rs (area.length - e) := by
+  have hshape := parsed_shape area s e k hwf
+  obtain ⟨w1, w2, w3, w4, w5, w6, w7, w8, w9, w10, w11⟩ := hwf
+  rw [dans_eq] at w5; rw [rich_eq] at w9
+  obtain ⟨_, hML, hMi⟩ := hshape
+  generalize hM : (area.take e).drop s = M at *
+  have hk : k < 4294967296 := hb k (List.mem_of_getElem? w6)
+  have hMsub : ∀ w ∈ M, w < 4294967296 := by
+    intro w hw; rw [← hM] at hw
+    exact hb w (List.mem_of_mem_take (List.mem_of_mem_drop hw))
+  have hs : M = [DANS ^^^ k, k, k, k] ++ ((M.take (M.length - 2)).drop 4 ++ [RICH, k]) := by
+    apply list_shape M _ _ _ _ _ _ (by omega)
+    · rw [hMi 0 (by omega)]; exact w5
+    · rw [hMi 1 (by omega)]; exact w6
+    · rw [hMi 2 (by omega)]; exact w7
+    · rw [hMi 3 (by omega)]; exact w8
+    · rw [hML, hMi _ (by omega), ← w9]; congr 1; omega
+    · rw [hML, hMi _ (by omega), ← w10]; congr 1; omega
+  generalize hB : (M.take (M.length - 2)).drop 4 = body at hs
+  have hBl : body.length = e - s - 6 := by
+    rw [← hB, List.length_drop, List.length_take, hML]; omega
+  have hBsub : ∀ w ∈ body, w < 4294967296 := by
+    intro w hw; rw [← hB] at hw
+    exact hMsub w (List.mem_of_mem_take (List.mem_of_mem_drop hw))
+  have hround : encodeAll k (decodeAll k body) = body := encodeAll_decodeAll k hk body (by omega) hBsub
+  refine ⟨decodeAll k body, decodeAll_wf k hk body hBsub, ?_, ?_, ?_⟩
+  · rw [decodeAll_length]; omega
+  · unfold hdrWords; rw [hround]; exact hs
+  · have hz : area.drop e = List.replicate (area.length - e) 0 := by
+      rw [List.eq_replicate_iff]
+      refine ⟨by rw [List.length_drop], ?_⟩
+      intro b hbm
+      obtain ⟨i, hi⟩ := List.getElem?_of_mem hbm
+      rw [List.getElem?_drop] at hi
+      have hlt : e + i < area.length := by
+        by_cases hlt : e + i < area.length
+        · exact hlt
+        · rw [List.getElem?_eq_none (by omega)] at hi; cases hi
+      have := w11 (e + i) hlt (by omega)
+      rw [this] at hi; cases hi; rfl
+    unfold layoutWords hdrWords
+    rw [hround, ← hs, ← hz, ← hM]
+    have t1 : area.take s = (area.take e).take s := by rw [List.take_take, Nat.min_eq_left (by omega)]
+    rw [t1, ← List.append_assoc, List.take_append_drop, List.take_append_drop]
+
+
+theorem wordsGo_lt (b : Bytes) : ∀ (n i : Nat), ∀ w ∈ wordsGo b n i, w < 4294967296 := by
+  intro n
+  induction n with
+  | zero => intro i w hw; simp [wordsGo] at hw
+  | succ n ih =>
+    intro i w hw
+    simp only [wordsGo, List.mem_cons] at hw
+    rcases hw with hw | hw
+    · rw [hw]; exact le32_lt b _
+    · exact ih _ w hw
+
+theorem words_lt (b : Bytes) : ∀ w ∈ words b, w < 4294967296 := wordsGo_lt b _ _
+
+theorem ofImage_eq (img : Img) (h : img.base % 4 = 0) : ofImage img = tryFrom (words img.bytes) := by
+  unfold ofImage rawRef
+  rw [if_pos ⟨by omega, by simpa using h⟩]
+  rfl
+
+
 end Pelite.Rich
